@@ -336,6 +336,8 @@ struct Feat
     bool fan = false;      // a prefixed/multiplied reference to a user units whose expansion has more than one leaf
     bool outerexp = false; // a scaled standard-unit child (prefix, multiplier, gram, litre) below a reference with accumulated exponent != 1
     bool nested = false;   // references a user units at all
+    bool revisit = false;  // depth-first, an import made by the main model is followed *after* an import made by a library was followed
+    bool sawLibImport = false; // (walk state)
 };
 
 void walkFeat(const PoolIR &P, Reducer &R, int model, const std::string &name, double acc, Feat &F)
@@ -351,6 +353,12 @@ void walkFeat(const PoolIR &P, Reducer &R, int model, const std::string &name, d
         F.imp = true;
         if (acc != 1.0) {
             F.impexp = true;
+        }
+        if (model == 0 && F.sawLibImport) {
+            F.revisit = true;
+        }
+        if (model > 0) {
+            F.sawLibImport = true;
         }
         if (u->undef == 0) {
             walkFeat(P, R, u->impModel, u->impRef, acc, F);
@@ -1069,7 +1077,7 @@ std::string eqMath(const std::vector<std::pair<std::string, std::string>> &eqs)
 
 int64_t vh_case_count(const std::string &tier, uint64_t)
 {
-    return tier == "thorough" ? 6000 : 480;
+    return tier == "thorough" ? 20000 : 2000;
 }
 
 void vh_run_case(Ctx &ctx)
@@ -1179,13 +1187,13 @@ void vh_run_case(Ctx &ctx)
             double f = fac[i][j];
             nCompat += c ? 1 : 0;
             if (c != refCompat) {
-                std::string cls = (a.feat.impexp || b.feat.impexp) ? "imported-exp" : ((a.feat.imp || b.feat.imp) ? "imported" : "plain");
+                std::string cls = (a.feat.revisit || b.feat.revisit) ? "import-after-chain" : ((a.feat.impexp || b.feat.impexp) ? "imported-exp" : ((a.feat.imp || b.feat.imp) ? "imported" : "plain"));
                 viol("C08", "compatible:vs-reference:" + cls,
                      "Units::compatible(" + a.name + ", " + b.name + ") = " + (c ? "true" : "false") + " but the definitions reduce to " + dimStr(a.red.dim) + " and " + dimStr(b.red.dim),
                      pairReplay(i, j));
             }
             if (i == j && !c) {
-                viol("C08", "compatible:reflexive", "compatible(" + a.name + ", " + a.name + ") is false for a fully defined units", pairReplay(i, j));
+                viol("C08", std::string("compatible:reflexive") + (a.feat.revisit ? ":import-after-chain" : ""), "compatible(" + a.name + ", " + a.name + ") is false for a fully defined units", pairReplay(i, j));
             }
             if (i < j && comp[i][j] != comp[j][i]) {
                 viol("C08", "compatible:symmetric", "compatible(" + a.name + ", " + b.name + ") != compatible(" + b.name + ", " + a.name + ")", pairReplay(i, j));
@@ -1286,14 +1294,14 @@ void vh_run_case(Ctx &ctx)
         }
         std::string law = mem[i].how == "perm" ? "child-order" : "alias";
         stat("variant_" + law + "_checked");
-        std::string el = eligStr(mem[i], mem[s]);
+        std::string el = eligStr(mem[i], mem[s]) + ((mem[i].feat.revisit || mem[s].feat.revisit) ? ":import-after-chain" : "");
         if (comp[i][s] == 0 || !relClose(fac[i][s], 1.0, 1e-9)) {
-            viol("C08", (comp[i][s] == 0 ? "compatible:" : "scaling:") + law + (comp[i][s] == 0 ? "" : ":" + el),
+            viol("C08", (comp[i][s] == 0 ? "compatible:" : "scaling:") + law + ":" + el,
                  mem[i].name + " is " + mem[i].how + " of " + mem[s].name + " but compatible = " + std::to_string(comp[i][s]) + ", factor = " + num(fac[i][s]), pairReplay(i, s));
         }
         for (size_t w : defd) {
             if (comp[i][w] != comp[s][w]) {
-                viol("C08", "compatible:" + law, "compatible(" + mem[i].name + ", " + mem[w].name + ") differs from compatible(" + mem[s].name + ", " + mem[w].name + ")",
+                viol("C08", "compatible:" + law + ":" + el, "compatible(" + mem[i].name + ", " + mem[w].name + ") differs from compatible(" + mem[s].name + ", " + mem[w].name + ")",
                      pairReplay(i, w));
             } else if (!relClose(fac[i][w], fac[s][w], 1e-9)) {
                 viol("C08", "scaling:" + law + ":" + el, "f(" + mem[i].name + ", " + mem[w].name + ") = " + num(fac[i][w]) + " but f(" + mem[s].name + ", " + mem[w].name + ") = " + num(fac[s][w]),
@@ -1488,6 +1496,9 @@ void vh_run_case(Ctx &ctx)
                                          {imported, "imported"},
                                          {a.bareScaled || b.bareScaled, "bare-standard"}});
             seen("validator_hint_class", eligStr(a, b) + ":" + cls);
+            if (cls == "plain" && !a.feat.inelig && !b.feat.inelig) {
+                stat("validator_hints_compared_eligible_plain");
+            }
             if (!agrees) {
                 viol("C08", "units-3way:validator-vs-units:hint:" + eligStr(a, b) + ":" + cls,
                      "validator: " + descr[k] + "\nUnits::scalingFactor(" + u2.name + ", " + u1.name + ", false) = " + num(f0) + " = 10^" + num(ku) + " (reference: 10^" + num(static_cast<double>(u1.red.scale - u2.red.scale)) + ")",
@@ -1644,8 +1655,15 @@ void vh_run_case(Ctx &ctx)
                 stat("analyser_pairs_compared");
                 std::string cls = joinFlags({{a.feat.fan || b.feat.fan, "fan-out"}, {a.bareScaled || b.bareScaled, "bare-standard"}});
                 seen("analyser_pair_class", eligStr(a, b) + ":" + cls + ":" + (e ? "equivalent" : (c ? "scaled" : "incompatible")));
+                bool eligPlain = !a.feat.inelig && !b.feat.inelig && cls == "plain";
+                if (eligPlain) {
+                    stat("analyser_pairs_compared_eligible_plain");
+                }
                 if (w == e) {
-                    viol("C08", "units-3way:analyser-vs-units:" + eligStr(a, b) + ":" + cls + ":" + (w ? "warned" : "silent"),
+                    // a warning on units that are equivalent for Units::equivalent *and* for the reference (scales equal to 1e-12) can only
+                    // come from rounding in the analyser's own accumulation: keyed apart
+                    bool noise = w && eligPlain && a.red.dim == b.red.dim && fabsl(a.red.scale - b.red.scale) < 1e-12L;
+                    viol("C08", "units-3way:analyser-vs-units:" + eligStr(a, b) + ":" + cls + ":" + (w ? "warned" : "silent") + (noise ? "-on-rounding-noise" : ""),
                          "p = q with p in " + a.name + " and q in " + b.name + ": Units::equivalent = " + (e ? "true" : "false") + " (compatible = " + (c ? "true" : "false") + ", factor = " + num(f) + ") but the analyser "
                              + (w ? "warns: " + wtext[k] : "gives no units warning"),
                          pairReplay(ap[k].a, ap[k].b));
